@@ -4,5 +4,7 @@ CONSTANTS
   VALS = {"A", "B", "C"}
   MaxOps = 9
   MaxArm = 2
+  MaxRArm = 0
+  EmptySkip = TRUE
   AgeReset = TRUE
 CONSTRAINT Emit
